@@ -428,6 +428,15 @@ int main(void) {
                     if (!ZSTD_isError(r) && r == 300 && !memcmp(outb, srcB, 300)) printf("ok\n");
                     else printf("err %s\n", ZSTD_isError(r) ? ZSTD_getErrorName(r) : "wrong content");
                     ZSTD_DCtx_reset(d, ZSTD_reset_session_only); dbegan[o] = 0; } }
+            else if (!strcmp(op, "dfxb")) {   /* effect: prepared frame b through the buffer-less API (ZSTD_decompressBegin + ZSTD_decompressContinue), then a session reset */
+                if (c16_d_stage(d)) printf("skip\n");
+                else { const unsigned char* ip = G[b % 5]; size_t left = Gsize[b % 5]; size_t pos = 0; size_t r = ZSTD_decompressBegin(d); int it = 0;
+                    while (!ZSTD_isError(r) && it++ < 4096) { size_t const need = ZSTD_nextSrcSizeToDecompress(d); if (need == 0) break;
+                        if (need > left) { r = ERROR(srcSize_wrong); break; }
+                        r = ZSTD_decompressContinue(d, outb + pos, outCap - pos, ip, need); if (ZSTD_isError(r)) break; pos += r; ip += need; left -= need; }
+                    if (!ZSTD_isError(r) && pos == sizeof(srcB) && !memcmp(outb, srcB, sizeof(srcB))) printf("ok\n");
+                    else printf("err %s\n", ZSTD_isError(r) ? ZSTD_getErrorName(r) : "incomplete");
+                    ZSTD_DCtx_reset(d, ZSTD_reset_session_only); dbegan[o] = 0; } }
             else if (!strcmp(op, "dxvec")) {   /* dictUses, kind of the active dictionary (0 none, 1 referenced DDict, 2 local copy, 3 prefix), which one, set membership */
                 int const uses = c16_d_dictuses(d); int kind = 0, which = 0; const void* dd = c16_d_ddict(d);
                 if (dd) { int k; const void* content = c16_d_ddict_content(d); size_t const csz = c16_d_ddict_size(d);
